@@ -653,8 +653,11 @@ class ndarray:
     def __rand__(self, o): return self._logic(o, lambda a, b: a & b)
     def __xor__(self, o): return self._logic(o, lambda a, b: a ^ b)
     def __invert__(self):
-        if self.dtype.kind != "b": raise ModelGap("~ on non-bool array")
-        return self._like([z3.Not(c) for c in self._cells()])
+        k = self.dtype.kind
+        if k == "b": return self._like([z3.Not(c) for c in self._cells()])
+        if k == "i": return self._like([-c - 1 for c in self._cells()])
+        if k == "O": return self._like([~_obj_scalar(c) for c in self._cells()])      # Python's ~ on each object
+        raise TypeError("ufunc 'invert' not supported for the input types")
     def __neg__(self):
         k = self.dtype.kind
         if k == "b":
@@ -1403,7 +1406,12 @@ def _reducer(name, x, extra=(), extra_terms=()):
     return SymF64(uf_reducer(name, args, extra, extra_terms))
 
 def mean(x, axis=None): return _reducer("mean", x)
-def median(x, axis=None): return _reducer("median", x)
+def median(x, axis=None, overwrite_input=False):
+    r = _reducer("median", x)
+    if overwrite_input and isinstance(x, ndarray) and len(x) > 1:
+        # NumPy partitions the input in place; which permutation results is unspecified: modelled as sorted
+        ndarray.sort(x)
+    return r
 def std(x, axis=None, ddof=0): return _reducer("std", x, (int(ddof),))
 def var(x, axis=None, ddof=0): return _reducer("var", x, (int(ddof),))
 def quantile(x, q, axis=None):
